@@ -22,23 +22,23 @@ CHECKS = {
         note='R-mode reading of the two strict comparisons; function level (match_storms); the SQL view storm_total_rain_depth is covered only when the DB-level harness is present.',
         ref='5/C03'),
     'C04': dict(
-        text='All pairs of boolean flag vectors up to length N (7 quick, 9 thorough) through the real get_mystery_jump_mask and get_true_interval_masks; the resulting unexplained-rise and interstorm flags are proved equal to a declarative expansion of the property text, and the runs equal to the maximal True runs.',
-        note='Function level: flag vectors are arbitrary booleans; rate computation and table writes of classify_interstorms belong to the DB-level harness.',
+        text='All pairs of boolean flag vectors up to length N (7 quick, 9 thorough) through the real get_mystery_jump_mask and get_true_interval_masks; the resulting unexplained-rise and interstorm flags are proved equal to a declarative expansion of the property text, and the runs equal to the maximal True runs.  DB level: classify_intervals on symsql from any Inv_load state (G=4 at 1800 s; G=3 at 2700 s and 7200 s, steps that do not divide an hour): flag rows and interstorm intervals against the same declarative definitions over symbolic rain and level.',
+        note='R-mode reading of rate > threshold; Inv_load constructor compared with the real load on every validity pattern at each run.',
         ref='5/C04'),
     'C05': dict(
-        text='find_offsets executed on every connected incidence pattern of up to 3 series x 3 levels (quick; 4x4 thorough) with symbolic real crossing values; numpy.linalg.solve is exact elimination on the concrete rational normal matrix.  Obligations (LRA validity): per-series residual sums against the level means are zero (stationarity of a convex quadratic = global minimum), any other stationary offset vector differs by a constant, every series sharing a level gets exactly one offset; for 2 series additionally the sum-of-squares inequality as an NRA query.',
-        note='R-mode; overlap graph assumed connected (the caller guarantee proved in C08); DB-level tables of rise/recession are not covered by this harness.',
+        text='find_offsets executed on every connected incidence pattern of up to 3 series x 3 levels (quick; 4x4 thorough) with symbolic real crossing values; numpy.linalg.solve is exact elimination on the concrete rational normal matrix.  Obligations (LRA validity): per-series residual sums against the level means are zero (stationarity of a convex quadratic = global minimum), any other stationary offset vector differs by a constant, every series sharing a level gets exactly one offset; for 2 series additionally the sum-of-squares inequality as an NRA query.  Table level: `rise` / `recession` on symsql (with and without a reference level) on the C13 patterned records: residual sums of the stored offsets and crossings against the stored master curve are zero.',
+        note='R-mode; overlap graph assumed connected (the caller guarantee proved in C08); datasets large enough to reach a size-dependent code path (none exists on the unchanged tree) are outside.',
         ref='5/C05'),
     'C08': dict(
         text='(a) get_connected_components / split_mapping_by_keys on every series-by-level incidence pattern (3x3 quick, 4x4 thorough) and level order: groups equal the true chains of overlap and the kept group is a largest one.  (b) get_series_time_offsets run twice on the same symbolic series (concrete level patterns from a small value set, symbolic abscissae): second run permuted (all permutations) with an arbitrary per-series axis shift; obligations: same intervals included, the included set is one whole group, offset+crossing of every interval at every level differs between the runs by one common constant, master curve likewise.',
         note='R-mode; level values concrete (control flow depends only on them), abscissae and shifts symbolic reals; one open known finding (single-interval main body crashes).',
         ref='5/C08'),
     'C07': dict(
-        text='(a1) the real classify_intervals on symsql at two symbolic integer origins e and e+delta with the same symbolic record (all validity patterns, G grid steps): every table equal up to the shift, by SMT/structural equality per cell; (a2) the whole workflow (classify, set-zeta-grid, rise, recession) on a planted record at two symbolic origins; (b) bit-precise: the rise flags that classify_interstorms computes for symbolic Float64 water levels and threshold at origins e and e+k*step (32-bit epochs via bit-vector twins) are captured and proved equal by an origin-cone decomposition over one-shot QF_BVFP queries; witness replays through the real CLI at two dates.',
+        text='(a1) the real classify_intervals on symsql at two symbolic integer origins e and e+delta with the same symbolic record (all validity patterns, G grid steps): every table equal up to the shift, by SMT/structural equality per cell; (a2) the whole workflow (classify, set-zeta-grid, rise, recession) on a planted record at two symbolic origins; (b) bit-precise: the rise flags that classify_interstorms computes for symbolic Float64 water levels and threshold at origins e and e+k*step (32-bit epochs via bit-vector twins) are captured and proved equal by an origin-cone decomposition over one-shot QF_BVFP queries; the increment threshold match_all_storms hands to match_storms is captured and compared the same way; witness replays through the real CLI at two dates.',
         note='(a) over the reals; (b) IEEE doubles for the rate computation only; zeta and threshold in [2**-10, 1e6]; steps 1200/1800 s quick, 600..3600 s thorough; when the code keeps absolute time out of float expressions (b) is discharged structurally, otherwise the solver searches for origins and data and may end inconclusive (exit 3), never as success.',
         ref='5/C07'),
     'C09': dict(
-        text='F: the real compute_rise_offsets / compute_offsets run in symsql on a planted dataset with a symbolic reference ref = fl(k*step) (k a symbolic integer with a bit-vector twin, |k| <= 1024 quick / 32768 thorough, 7 / 11 grid steps): proved by one-shot QF_BVFP queries that the reference is not refused and that the level index used as dictionary key equals k; half-way references fl((2k+1)*step/2) are proved to be refused.  R: with symbolic rain depths, for every level k of the curve the master-curve view is proved zero at k*step, and at the highest level without a reference.',
+        text='F: the real compute_rise_offsets / compute_offsets run in symsql on a planted dataset with a symbolic reference ref = fl(k*step) (k a symbolic integer with a bit-vector twin, |k| <= 1024 quick / 32768 thorough, 7 / 11 grid steps): proved by one-shot QF_BVFP queries that the reference is not refused and that the level index used as dictionary key equals k; half-way references fl((2k+1)*step/2) and references 3e-6 of a step off a multiple (|k| <= 128 quick) are proved to be refused.  R: with symbolic rain depths, for every level k of the curve the master-curve view is proved zero at k*step, and at the highest level without a reference.',
         note='F: only the reference block is bit-precise (data are exact rationals); off-grid is exercised on half-way points only; a multiple no interval crosses (KeyError) is outside; R over the reals.',
         ref='5/C09'),
     'C14': dict(
@@ -54,7 +54,7 @@ CHECKS = {
         note='R-mode; UTC; foreign keys enforced as load requests; at least two level rows and two rain instants in span; the closing instant beyond the record end has no required label.',
         ref='5/C10'),
     'C11': dict(
-        text='Time zones: the real generate_timestamped_rows with the real pytz code (localize/normalize/fromutc, bisect over the transition table) runs on a shim datetime whose wall clock is a symbolic integer; for every path (position of the local time among the zone transitions) the stored epoch E is proved to satisfy offset_in_force_at(E) = L - E with the offset read from the zone table; non-existent local times are recognised (proved to have no valid instant) and excluded.  8 zones + 2 seed-chosen, every second of 2012-2024 quick; all common zones over the whole table thorough.  Refusals: the C10 harness with a planted irregular rain step, a missing ET row, or a second load must raise, the last leaving the dataset unchanged.',
+        text='Time zones: the real generate_timestamped_rows with the real pytz code (localize/normalize/fromutc, bisect over the transition table) runs on a shim datetime whose wall clock is a symbolic integer; for every path (position of the local time among the zone transitions) the stored epoch E is proved to satisfy offset_in_force_at(E) = L - E with the offset read from the zone table; non-existent local times are recognised (proved to have no valid instant) and excluded.  8 zones + 2 seed-chosen, every second of 2012-2024 quick; all common zones over the whole table thorough; a two-row variant (second row 1..7200 s later, windows around transitions) proves that a row is converted independently of the other rows.  Refusals: the C10 harness with a planted irregular rain step, a missing or mistyped (off-grid) ET row, or a second load must raise, the last leaving the dataset unchanged.',
         note='strptime is C code: replaced by a shim accepting the ISO format only; irregular rain must be visible among >= 3 rain instants inside the level span.',
         ref='5/C11'),
     'C17': dict(
@@ -88,8 +88,8 @@ CHECKS = {
         technique='fault enumeration on the real code and a real SQLite file, fault index / kind / order chosen and exhausted by the symx engine (z3 closes each range)',
         ref='5/C20'),
     'C12': dict(
-        text='regrid and build_head_mapping executed on symbolic series (2..3 samples quick, 4 thorough; |y|/step <= 2; x any strictly increasing reals; several concrete steps) with interp1d/brentq replaced by their contracts; every yielded item is proved to be the next expected level of its pair, between the two samples and on the chord; nothing missing, nothing extra.',
-        note='R-mode; brentq contract = root strictly between the end points when signs differ; the nonlinear chord equation is kept as a lazy fact used only by obligations; numerical accuracy of scipy is outside (witness replays compare with the exact crossing to 1e-6).',
+        text='regrid and build_head_mapping executed on symbolic series (2..3 samples quick, 4 thorough; |y|/step <= 2; x any strictly increasing reals; several concrete steps) with interp1d/brentq replaced by their contracts; every yielded item is proved to be the next expected level of its pair, between the two samples and on the chord; nothing missing, nothing extra.  Bit-precise: for steps with exactly representable multiples (1, 0.5, 3, 75, 49 ...) a sample y = k*step (|k| <= 1024 quick) and one half a step higher go through the real build_head_mapping/regrid up to np.ceil: the series in step units is proved to be exactly k and inside (k, k+1] (one-shot QF_BVFP).',
+        note='R-mode for the main harness; brentq contract = root strictly between the end points when signs differ; the nonlinear chord equation is kept as a lazy fact used only by obligations; numerical accuracy of scipy is outside (witness replays compare with the exact crossing to 1e-6).',
         ref='5/C12'),
 }
 
